@@ -474,6 +474,21 @@ class _FakePandas:
         raise StubLimit("pandas.%s not modelled" % n)
 
 
+import functools as _functools
+
+
+def _pymemo(f):
+    cache = {}
+
+    def memoised(*args, **kwargs):
+        key = (args, tuple(sorted(kwargs.items())))
+        if key not in cache:
+            cache[key] = f(*args, **kwargs)
+        return cache[key]
+    memoised.__wrapped__ = f
+    return memoised
+
+
 class patched_pandas:
     """ECAgent.Environments.pandas replaced by the contract stand-in for the duration of a path"""
 
@@ -483,10 +498,20 @@ class patched_pandas:
         self.saved = Env.pandas
         Env.pandas = _FakePandas()
         Frame.made = []
+        # C-level memoisation (functools.lru_cache / functools.cache) is invisible to the symbolic run (measured: a
+        # cached table shared by two worlds went unnoticed).  Module-level memoised helpers are therefore replaced by
+        # an equivalent Python-level memo for the duration of the path, so that the sharing they introduce is seen.
+        self.memo = []
+        for name, obj in list(vars(Env).items()):
+            if isinstance(obj, _functools._lru_cache_wrapper):
+                self.memo.append((name, obj))
+                setattr(Env, name, _pymemo(obj.__wrapped__))
         return self
 
     def __exit__(self, *a):
         self.Env.pandas = self.saved
+        for name, obj in self.memo:
+            setattr(self.Env, name, obj)
         return False
 
 
